@@ -44,7 +44,8 @@ class AsJSONMixin:
                 and not is_readonly_property(self, name)
             )
 
-        return rowselect(vars(self), vars(self), where=is_public)
+        # NOTE: a snapshot of the names: other threads may be attaching cached attributes
+        return rowselect(tuple(vars(self)), vars(self), where=is_public)
 
 
 def asjson(obj: Any, seen: set[int] | None = None) -> Any:
